@@ -36,6 +36,7 @@ try:
         shutil.copytree(src, os.path.join(wt, "out8", k), dirs_exist_ok=True)
         shutil.copytree(src, os.path.join(wt, "out9", k), dirs_exist_ok=True)
         shutil.copytree(src, os.path.join(wt, "out10", k), dirs_exist_ok=True)
+        shutil.copytree(src, os.path.join(wt, "out11", k), dirs_exist_ok=True)
         if "cp " not in demo_cmd:
             for f in demo_src:
                 p = os.path.join(src, f)
